@@ -192,6 +192,10 @@ module N :
   val of_nat : nat -> n
  end
 
+val hd : 'a1 -> 'a1 list -> 'a1
+
+val tl : 'a1 list -> 'a1 list
+
 val in_dec : ('a1 -> 'a1 -> bool) -> 'a1 -> 'a1 list -> bool
 
 val nth : nat -> 'a1 list -> 'a1 -> 'a1
@@ -209,6 +213,8 @@ val map : ('a1 -> 'a2) -> 'a1 list -> 'a2 list
 val flat_map : ('a1 -> 'a2 list) -> 'a1 list -> 'a2 list
 
 val fold_left : ('a1 -> 'a2 -> 'a1) -> 'a2 list -> 'a1 -> 'a1
+
+val fold_right : ('a2 -> 'a1 -> 'a1) -> 'a1 -> 'a2 list -> 'a1
 
 val existsb : ('a1 -> bool) -> 'a1 list -> bool
 
@@ -451,6 +457,161 @@ val g_dictionary_Parser_parseAttribute : guard list
 val g_dictionary_Parser_parseVendor : guard list
 
 val t_parser_types : (string * z) list
+
+val t_string : z
+
+val t_octets : z
+
+val t_ipaddr : z
+
+val t_date : z
+
+val t_integer : z
+
+val t_ipv6addr : z
+
+val t_ipv6prefix : z
+
+val t_ifid : z
+
+val t_integer64 : z
+
+val t_vsa : z
+
+val t_byte : z
+
+val t_short : z
+
+type gattr = { ga_name : bytes; ga_ident : bytes; ga_oid : z list;
+               ga_type : z; ga_size : z option; ga_enc : z option;
+               ga_tag : bool option; ga_concat : bool option }
+
+type gvalue = { gl_attr : bytes; gl_name : bytes; gl_ident : bytes; gl_num : z }
+
+type gvendor = { gn_name : bytes; gn_ident : bytes; gn_num : z; gn_tlen : 
+                 z; gn_llen : z; gn_attrs : gattr list; gn_vals : gvalue list }
+
+type gdict = { gd_attrs : gattr list; gd_vals : gvalue list;
+               gd_vendors : gvendor list }
+
+type gopts = { go_ignore : bytes list; go_ext : (bytes * bytes) list }
+
+val e_conflict : n
+
+val e_attr : n
+
+val e_unknown : n
+
+val e_vendor : n
+
+val e_vattr : n
+
+val e_range : n
+
+val e_valconflict : n
+
+val mem : bytes -> bytes list -> bool
+
+val has_tag : gattr -> bool
+
+val is_concat : gattr -> bool
+
+val is_str : z -> bool
+
+val salted : gattr -> bool
+
+val some : 'a1 option -> bool
+
+val is_int : z -> bool
+
+val enc_supported : gattr -> z -> bool
+
+val common_invalid : gattr -> bool
+
+val supported : z -> bool
+
+val invalid_top : gattr -> bool
+
+val invalid_vendor_attr : gattr -> bool
+
+val check_attrs :
+  (gattr -> bool) -> n -> bytes list -> bytes list -> gattr list -> (gattr
+  list * bytes list) res
+
+val insert : ('a1 -> 'a1 -> bool) -> 'a1 -> 'a1 list -> 'a1 list
+
+val sort : ('a1 -> 'a1 -> bool) -> 'a1 list -> 'a1 list
+
+val oid_lt : nat -> z list -> z list -> bool
+
+val bytes_lt : bytes -> bytes -> bool
+
+val oid_cmp_lt : z list -> z list -> bool
+
+val attr_lt : gattr -> gattr -> bool
+
+val value_lt : gvalue -> gvalue -> bool
+
+val vendor_lt : gvendor -> gvendor -> bool
+
+val split_values :
+  bytes list -> bytes list -> bytes list -> gvalue list -> (gvalue
+  list * gvalue list) res
+
+val max_of : z -> z option
+
+val check_vals : z -> (bytes * z) list -> gvalue list -> n option
+
+val check_values : gattr -> gvalue list -> n option
+
+val first_error : ('a1 -> n option) -> 'a1 list -> n option
+
+type fname =
+| FAdd
+| FAddString
+| FGet
+| FGetString
+| FGets
+| FGetStrings
+| FLookup
+| FLookupString
+| FSet
+| FSetString
+| FDel
+
+type vtype =
+| VBytes
+| VString
+| VIP
+| VHW
+| VNet
+| VTime
+| VNamed
+| VByte
+
+type gdecl =
+| DTypeConst of bytes * z
+| DVendorConst of bytes * z
+| DExtInit of bytes * (bytes * z) list
+| DIntType of bytes * z
+| DValueConst of bytes * bytes * z
+| DStrings of bytes
+| DStringer of bytes
+| DFunc of bytes * fname * bool * bool * vtype
+| DVendorFunc of bytes * z
+
+val dedup : gvalue list -> gvalue list
+
+val values_of_attr : gattr -> gvalue list -> gvalue list
+
+val funcs : gattr -> gvalue list -> gdecl list
+
+type cvendor = { cv_v : gvendor; cv_attrs : gattr list; cv_vals : gvalue list }
+
+val check_vendors :
+  bytes list -> bytes list -> gvendor list -> cvendor list res
+
+val gen : gopts -> gdict -> gdecl list res
 
 type avp = { atype : z; aval : bytes }
 
@@ -981,9 +1142,9 @@ val e_merge_vendor : n
 
 val e_merge_vattr : n
 
-val check_attrs : pdict -> pdict -> bool
+val check_attrs0 : pdict -> pdict -> bool
 
-val check_vendors : heap0 -> pdict -> nat list -> n option
+val check_vendors0 : heap0 -> pdict -> nat list -> n option
 
 val assemble : bool -> heap0 -> nat list -> nat list -> heap0 * nat list
 
@@ -1109,7 +1270,7 @@ val decide :
   (bytes -> bytes) -> bool -> (n -> secret_res) -> n -> bytes -> request
   option
 
-val mem : key -> key list -> bool
+val mem0 : key -> key list -> bool
 
 val delete : key -> key list -> key list
 
@@ -1784,5 +1945,29 @@ val run_mem :
 val place : bytes list -> z list -> nat -> (z * slice0) list
 
 val dispatch_mem : bytes -> bytes list -> z list -> tok list option
+
+val zopt : z -> z option
+
+val bopt : z -> bool option
+
+val take_gattrs :
+  nat -> z list -> bytes list -> gattr list * (z list * bytes list)
+
+val take_gvals :
+  nat -> z list -> bytes list -> gvalue list * (z list * bytes list)
+
+val take_gvendors : nat -> z list -> bytes list -> gvendor list
+
+val take_pairs : nat -> bytes list -> (bytes * bytes) list * bytes list
+
+val fcode : fname -> z
+
+val vcode : vtype -> z
+
+val zb : bool -> z
+
+val t_gdecl : gdecl -> tok list
+
+val dispatch_gen : bytes -> bytes list -> z list -> tok list option
 
 val dispatch : bytes -> bytes list -> z list -> tok list
